@@ -21,8 +21,8 @@ def Pc.holds : Pc → Option Nat
 
 /-- the thread holds the writer mutex -/
 def Pc.crit : Pc → Bool
-  | .wLoad _ | .wAlloc | .wSwap _ | .wSeen0 _ | .wSeen1 .. | .wFlip .. | .wHint .. | .wLoop0 ..
-  | .wLoop1 .. | .wFree _ | .wUnlock => true
+  | .wLoad .. | .wAlloc _ | .wSwap _ | .wSeen0 _ | .wSeen1 .. | .wFlip .. | .wHint .. | .wLoop0 ..
+  | .wLoop1 .. | .wFree _ | .wUnlock _ => true
   | _ => false
 
 /-- a writer after its swap: the snapshot it swapped out and which slots it has seen idle since -/
@@ -339,21 +339,21 @@ theorem inv_step (ye : Nat) (s s' : Sys) (t : Nat) (o : Obs) (hinv : Inv s)
         have a := (hinv.mutex t ht).1 hcrit
         have b := (hinv.mutex j hj).1 h2
         rw [a] at b; injection b with b; exact b.symm
-      have hget : ∀ i (h : i < (s.threads.set t { script := (s.threads[t]).script, pc := Pc.wUnlock }).length),
-          (s.threads.set t { script := (s.threads[t]).script, pc := Pc.wUnlock })[i] =
-            if t = i then { script := (s.threads[t]).script, pc := Pc.wUnlock } else s.threads[i]'(by simpa using h) := by
+      have hget : ∀ i (h : i < (s.threads.set t { script := (s.threads[t]).script, pc := Pc.wUnlock (s.bombs.contains old) }).length),
+          (s.threads.set t { script := (s.threads[t]).script, pc := Pc.wUnlock (s.bombs.contains old) })[i] =
+            if t = i then { script := (s.threads[t]).script, pc := Pc.wUnlock (s.bombs.contains old) } else s.threads[i]'(by simpa using h) := by
         intro i h; rw [List.getElem_set]
       constructor
-      · have := countP_set_b2n (fun th => th.pc.slot0) s.threads t { script := (s.threads[t]).script, pc := Pc.wUnlock } ht
+      · have := countP_set_b2n (fun th => th.pc.slot0) s.threads t { script := (s.threads[t]).script, pc := Pc.wUnlock (s.bombs.contains old) } ht
         have h0 := hinv.count0
         have e1 : (s.threads[t]).pc.slot0 = false := by rw [hpc]; rfl
-        have e2 : Pc.slot0 .wUnlock = false := rfl
+        have e2 : Pc.slot0 (.wUnlock (s.bombs.contains old)) = false := rfl
         simp only [e1, e2, b2n] at this
         simp only; omega
-      · have := countP_set_b2n (fun th => th.pc.slot1) s.threads t { script := (s.threads[t]).script, pc := Pc.wUnlock } ht
+      · have := countP_set_b2n (fun th => th.pc.slot1) s.threads t { script := (s.threads[t]).script, pc := Pc.wUnlock (s.bombs.contains old) } ht
         have h0 := hinv.count1
         have e1 : (s.threads[t]).pc.slot1 = false := by rw [hpc]; rfl
-        have e2 : Pc.slot1 .wUnlock = false := rfl
+        have e2 : Pc.slot1 (.wUnlock (s.bombs.contains old)) = false := rfl
         simp only [e1, e2, b2n] at this
         simp only; omega
       · exact (List.mem_erase_of_ne (fun h => holdNe h.symm)).2 hdl
@@ -420,7 +420,7 @@ theorem inv_step (ye : Nat) (s s' : Sys) (t : Nat) (o : Obs) (hinv : Inv s)
           obtain ⟨rfl, rfl⟩ := hstep
           apply inv_update s _ t ht _ hinv
           hl_side
-        | write st =>
+        | write st bomb =>
           simp only [hsc] at hstep
           cases hmo : s.mutexOwner with
           | some w => simp [hmo] at hstep
@@ -462,13 +462,13 @@ theorem inv_step (ye : Nat) (s s' : Sys) (t : Nat) (o : Obs) (hinv : Inv s)
       obtain ⟨rfl, rfl⟩ := hstep
       apply inv_update s _ t ht _ hinv
       hl_side
-    | wLoad st =>
+    | wLoad st bomb =>
       cases st <;>
       · simp only [hpc, Option.some.injEq, Prod.mk.injEq] at hstep
         obtain ⟨rfl, rfl⟩ := hstep
         apply inv_update s _ t ht _ hinv
         hl_side
-    | wAlloc =>
+    | wAlloc bomb =>
       simp only [hpc, Option.some.injEq, Prod.mk.injEq] at hstep
       obtain ⟨rfl, rfl⟩ := hstep
       apply inv_update s _ t ht _ hinv
@@ -517,7 +517,7 @@ theorem inv_step (ye : Nat) (s s' : Sys) (t : Nat) (o : Obs) (hinv : Inv s)
         obtain ⟨rfl, rfl⟩ := hstep
         apply inv_update s _ t ht _ hinv
         hl_side
-    | wUnlock =>
+    | wUnlock pk =>
       simp only [hpc, Option.some.injEq, Prod.mk.injEq] at hstep
       obtain ⟨rfl, rfl⟩ := hstep
       apply inv_update s _ t ht _ hinv
